@@ -373,14 +373,17 @@ def Covers (S : Sys σ) (s : σ) (n : Name) (u : Target) : Prop :=
 def CoveredBy (S : Sys σ) (s : σ) (F : List Name) (u : Target) : Prop := ∃ n ∈ F, Covers S s n u
 
 /-- What the propagation loop needs from `reprocess_nodes` and the data around it; `Stale s u` reads
-    "the inputs recorded for unit `u` differ from the current snapshots".
+    "the inputs recorded for unit `u` differ from the current snapshots", `Inv` is any invariant of the build
+    manager's state that reprocessing preserves.
     * a unit that is stale after reprocessing a batch was either outside the batch and already stale, or a
       trigger fired by the batch covers it (snapshot diff complete + dependency map complete);
     * dependencies, module membership and target lookup only grow while propagating. -/
-structure ReprocessSpec (S : Sys σ) (Stale : σ → Target → Prop) : Prop where
-  reprocess_stale : ∀ s m us u, Stale (S.reprocess s m us).1 u →
+structure ReprocessSpec (S : Sys σ) (Inv : σ → Prop) (Stale : σ → Target → Prop) : Prop where
+  reprocess_inv : ∀ s m us, Inv s → Inv (S.reprocess s m us).1
+  reprocess_stale : ∀ s m us u, Inv s → Stale (S.reprocess s m us).1 u →
     (u ∉ us ∧ Stale s u) ∨ CoveredBy S (S.reprocess s m us).1 (S.reprocess s m us).2 u
   reprocess_covers : ∀ s m us n u, Covers S s n u → Covers S (S.reprocess s m us).1 n u
+  invalidate_inv : ∀ s ps, Inv s → Inv (S.invalidate s ps)
   invalidate_stale : ∀ s ps u, Stale (S.invalidate s ps) u → Stale s u
   invalidate_covers : ∀ s ps n u, Covers S s n u → Covers S (S.invalidate s ps) n u
 
@@ -390,21 +393,23 @@ def Scheduled (S : Sys σ) (s : σ) (trig : List Name) (utd : List Mod) (terr : 
       S.loaded s m = true ∧ u ∈ S.lookup s t)
   ∨ (∃ t ∈ terr, ∃ m, S.modOf s t = some m ∧ m ∉ utd ∧ u ∈ S.lookup s t)
 
-theorem reprocessAll_spec (S : Sys σ) (Stale : σ → Target → Prop) (spec : ReprocessSpec S Stale) :
-    ∀ (batches : List (Mod × List Target)) (s : σ) (fired : List Name),
+theorem reprocessAll_spec (S : Sys σ) (Inv : σ → Prop) (Stale : σ → Target → Prop) (spec : ReprocessSpec S Inv Stale) :
+    ∀ (batches : List (Mod × List Target)) (s : σ) (fired : List Name), Inv s →
     (∀ u, Stale s u → u ∈ Todo.units batches ∨ CoveredBy S s fired u) →
+    Inv (reprocessAll S s batches fired).1 ∧
     ∀ u, Stale (reprocessAll S s batches fired).1 u →
       CoveredBy S (reprocessAll S s batches fired).1 (reprocessAll S s batches fired).2 u
-  | [], s, fired, h, u, hu => by
-    simp only [reprocessAll] at hu ⊢
+  | [], s, fired, hinv, h => by
+    simp only [reprocessAll]
+    refine ⟨hinv, fun u hu => ?_⟩
     rcases h u hu with h | h
     · simp [Todo.units] at h
     · exact h
-  | (m, us) :: rest, s, fired, h, u, hu => by
-    simp only [reprocessAll] at hu ⊢
-    refine reprocessAll_spec S Stale spec rest _ _ ?_ u hu
+  | (m, us) :: rest, s, fired, hinv, h => by
+    simp only [reprocessAll]
+    refine reprocessAll_spec S Inv Stale spec rest _ _ (spec.reprocess_inv s m us hinv) ?_
     intro v hv
-    rcases spec.reprocess_stale s m us v hv with ⟨hnot, hst⟩ | ⟨n, hn, hc⟩
+    rcases spec.reprocess_stale s m us v hinv hv with ⟨hnot, hst⟩ | ⟨n, hn, hc⟩
     · rcases h v hst with hin | ⟨n, hn, hc⟩
       · simp only [Todo.units, List.mem_append] at hin
         rcases hin with hin | hin
@@ -413,14 +418,14 @@ theorem reprocessAll_spec (S : Sys σ) (Stale : σ → Target → Prop) (spec : 
       · exact Or.inr ⟨n, (mem_unionNames _ _ _).mpr (Or.inl hn), spec.reprocess_covers s m us n v hc⟩
     · exact Or.inr ⟨n, (mem_unionNames _ _ _).mpr (Or.inr hn), hc⟩
 
-theorem iteration_spec (S : Sys σ) (Stale : σ → Target → Prop) (spec : ReprocessSpec S Stale)
-    (s : σ) (trig : List Name) (utd : List Mod) (terr : List Target) (rem : List Mod)
+theorem iteration_spec (S : Sys σ) (Inv : σ → Prop) (Stale : σ → Target → Prop) (spec : ReprocessSpec S Inv Stale)
+    (s : σ) (trig : List Name) (utd : List Mod) (terr : List Target) (rem : List Mod) (hinv : Inv s)
     (h : ∀ u, Stale s u → Scheduled S s trig utd terr u) :
+    Inv (iteration S s trig utd terr rem).1 ∧
     ∀ u, Stale (iteration S s trig utd terr rem).1 u →
       CoveredBy S (iteration S s trig utd terr rem).1 (iteration S s trig utd terr rem).2.1 u := by
-  intro u hu
-  simp only [iteration] at hu ⊢
-  refine reprocessAll_spec S Stale spec _ _ [] ?_ u hu
+  simp only [iteration]
+  refine reprocessAll_spec S Inv Stale spec _ _ [] (spec.invalidate_inv _ _ hinv) ?_
   intro v hv
   left
   have hs := h v (spec.invalidate_stale _ _ v hv)
@@ -434,5 +439,45 @@ theorem iteration_spec (S : Sys σ) (Stale : σ → Target → Prop) (spec : Rep
     subst hx
     exact List.mem_map.mpr ⟨n, hn, rfl⟩
   · exact addErrTargets_mem S s utd t m v hm hutd hv' terr _ ht
+
+/-- The loop of `propagate_changes_using_dependencies`: explicit failure after `k` iterations, or a state
+    (still satisfying the invariant) in which no unit is stale. -/
+theorem propagate_spec (S : Sys σ) (Inv : σ → Prop) (Stale : σ → Target → Prop) (spec : ReprocessSpec S Inv Stale) :
+    ∀ (k : Nat) (s : σ) (trig : List Name) (utd : List Mod) (terr : List Target) (rem : List Mod),
+    Inv s → (∀ u, Stale s u → Scheduled S s trig utd terr u) →
+    (∃ s', propagate S k s trig utd terr rem = .maxIter s') ∨
+    (∃ s' rem', propagate S k s trig utd terr rem = .done s' rem' ∧ Inv s' ∧ ∀ u, ¬ Stale s' u) := by
+  intro k
+  induction k with
+  | zero =>
+    intro s trig utd terr rem hinv h
+    simp only [propagate]
+    split
+    · rename_i he
+      right
+      refine ⟨s, rem, rfl, hinv, ?_⟩
+      intro u hu
+      simp only [Bool.and_eq_true, List.isEmpty_iff] at he
+      rcases h u hu with ⟨n, hn, _⟩ | ⟨t, ht, _⟩
+      · rw [he.1] at hn; cases hn
+      · rw [he.2] at ht; cases ht
+    · exact Or.inl ⟨s, rfl⟩
+  | succ k ih =>
+    intro s trig utd terr rem hinv h
+    simp only [propagate]
+    split
+    · rename_i he
+      right
+      refine ⟨s, rem, rfl, hinv, ?_⟩
+      intro u hu
+      simp only [Bool.and_eq_true, List.isEmpty_iff] at he
+      rcases h u hu with ⟨n, hn, _⟩ | ⟨t, ht, _⟩
+      · rw [he.1] at hn; cases hn
+      · rw [he.2] at ht; cases ht
+    · have hit := iteration_spec S Inv Stale spec s trig utd terr rem hinv h
+      apply ih _ _ _ _ _ hit.1
+      intro u hu
+      obtain ⟨n, hn, t, m, hr, hm, hl, hu'⟩ := hit.2 u hu
+      exact Or.inl ⟨n, hn, t, m, hr, hm, by simp, hl, hu'⟩
 
 end FineGrained
